@@ -66,6 +66,20 @@ def deco(f):
     return wrapper
 
 
+class FuncInfo:
+    """what the harness keeps of a function object: its code, names - NOT the object (a closure instance the program has
+    dropped must be free to die, as it would without a harness)"""
+
+    def __init__(self, fn):
+        self.__code__ = getattr(fn, "__code__", None)
+        self.__qualname__ = getattr(fn, "__qualname__", repr(fn))
+        self.__name__ = getattr(fn, "__name__", "?")
+        self.__module__ = getattr(fn, "__module__", None)
+
+    def __repr__(self):
+        return f"<function {self.__module__}.{self.__qualname__}>"
+
+
 class Rec:
     """Ground truth recorded at call sites. typer(value) snapshots 'the type of this value' immediately
     (None = keep nothing but the outcome, used where the recorder must not inspect values)."""
@@ -102,11 +116,18 @@ class Rec:
             bad = None
         except TypeError as e:  # the call itself will raise TypeError before a frame exists
             bad = e
-        self.calls[cid] = dict(fn=fn, args=named, variadic=variadic, kind=kind, state="open", yields=[], awaits=0, ret=None,
+        self.calls[cid] = dict(fn=FuncInfo(fn), args=named, variadic=variadic, kind=kind, state="open", yields=[], awaits=0, ret=None,
                                outcome=None, resumes=0, bad_call=bad, locals_at_resume=[], killed_at_yield=False)
         if kind == "call":
             self.stack.append(cid)
         return cid
+
+    def keep(self, fn):
+        """every other closure handed out by its definer is kept (to be called later by the driver); the others die with their
+        defining call, like closures nobody stored"""
+        self.keep_n = getattr(self, "keep_n", 0) + 1
+        if self.keep_n % 2 == 0:
+            self.kept.append(fn)
 
     def post(self, cid, value):
         c = self.calls[cid]
